@@ -298,6 +298,13 @@ func (p *Program) explore(name string, entry *ssa.Function, body func(m *Machine
 	if opt.MaxPaths == 0 {
 		opt.MaxPaths = 200000
 	}
+	if opt.DeadlineS == 0 {
+		opt.DeadlineS = 300
+		if opt.Tier == 1 {
+			opt.DeadlineS = 2400
+		}
+	}
+	deadline := t0.Add(time.Duration(opt.DeadlineS) * time.Second)
 	var mu sync.Mutex
 	cond := sync.NewCond(&mu)
 	queue := [][]Decision{nil}
@@ -310,6 +317,7 @@ func (p *Program) explore(name string, entry *ssa.Function, body func(m *Machine
 		go func() {
 			defer wg.Done()
 			sol := acquireSolver(opt.TimeoutMs)
+			sol.NoFallback = opt.Tier == 0
 			defer releaseSolver(sol)
 			for {
 				mu.Lock()
@@ -321,7 +329,7 @@ func (p *Program) explore(name string, entry *ssa.Function, body func(m *Machine
 					cond.Broadcast()
 					return
 				}
-				if started >= opt.MaxPaths {
+				if started >= opt.MaxPaths || time.Now().After(deadline) {
 					rep.Truncated = true
 					queue = nil
 					mu.Unlock()
